@@ -76,8 +76,52 @@ fn game_stream(run: &mut Run, rng: &mut Rng, n_hist: usize) {
                             offers.push(Action::Draw(o));
                             run.distinct(&(b, ob));
                         }
-                        offers.push(Action::Draw(hand(rng.cards(1, h0 | h1 | b) | rng.cards(if b == 0 { 2 } else { 0 }, d)))); // one card in play
-                        let ans: String = offers.iter().map(|c| if g.is_allowed(c) { '1' } else { '0' }).collect();
+                        // externally supplied deals of the right size that contain one card already in
+                        // play: each card of seat 0's hole, each card of seat 1's hole (whoever the
+                        // "actor" is at this chance node), each board card - separately. None may be
+                        // accepted, none may be applied.
+                        let fill = if b == 0 { 2 } else { 0 };
+                        let n_good = offers.len();
+                        let mut dirty: Vec<(Action, &str)> = vec![];
+                        for (set, who) in [(h0, "seat 0's hole card"), (h1, "seat 1's hole card"), (b, "board card")] {
+                            for c in 0..52u64 {
+                                if set >> c & 1 == 1 {
+                                    dirty.push((Action::Draw(hand(1u64 << c | rng.cards(fill, d))), who));
+                                }
+                            }
+                        }
+                        let actor = (g.verif_dealer() + g.verif_ticker()) % 2;
+                        for (c, who) in &dirty {
+                            let (gg, cc) = (*g, *c);
+                            run.evaluations += 1;
+                            run.spec_checked += 2;
+                            let ok = catch(move || gg.is_allowed(&cc));
+                            if ok != Some(false) {
+                                run.fail("accepted-draw-contains-card-in-play", &format!("allowed {at} | {}", act_tok(c)),
+                                    &format!("0 (the deal contains a {who}; nominal actor at this chance node is seat {actor})"), &format!("{ok:?}"));
+                            }
+                            if let Some(child) = catch(move || gg.apply(cc)) {
+                                run.fail("draw-in-play-applied", &format!("game {at} {}", act_tok(c)), "panic", &safe_state_line(&child));
+                            }
+                            offers.push(*c);
+                            run.count(&format!("dirty-deal:{}:actor{}", who.replace(' ', "-").replace('\'', ""), actor));
+                        }
+                        // every ACCEPTED externally supplied deal must leave holes and board disjoint
+                        for c in offers.iter().take(n_good).chain(std::iter::once(&Action::Draw(hand(rng.cards(if b == 0 { 3 } else { 1 }, d))))) {
+                            let (gg, cc) = (*g, *c);
+                            if catch(move || gg.is_allowed(&cc)) == Some(true) {
+                                run.spec_checked += 1;
+                                match catch(move || { let ch = gg.apply(cc); let s = ch.verif_seats(); (bits(Hand::from(s[0].4)), bits(Hand::from(s[1].4)), bits(Hand::from(ch.board()))) }) {
+                                    None => run.fail("accepted-draw-panics", &format!("game {at} {}", act_tok(c)), "a state", "panic"),
+                                    Some((x0, x1, nb)) => {
+                                        if x0 & x1 != 0 || x0 & nb != 0 || x1 & nb != 0 || nb != b | bits(match c { Action::Draw(h) => *h, _ => unreachable!() }) {
+                                            run.fail("cards-overlap-after-accepted-draw", &format!("game {at} {}", act_tok(c)), "holes and board pairwise disjoint, board = old board + deal", &format!("holes {x0} {x1} board {nb}"));
+                                        }
+                                    }
+                                }
+                            }
+                        }
+                        let ans: String = offers.iter().map(|c| { let (gg, cc) = (*g, *c); match catch(move || gg.is_allowed(&cc)) { Some(true) => '1', Some(false) => '0', None => 'P' } }).collect();
                         run.line(&format!("allowed {at} | {}", offers.iter().map(act_tok).collect::<Vec<_>>().join(" ")), &ans);
                         run.count(&format!("offers:{}", street_name(g)));
                     }
